@@ -107,6 +107,8 @@ def main():
             rec[prop] = res
             status = 'FIRED' if res['exit'] == 1 else ('silent' if res['exit'] == 0 else 'INCONCLUSIVE/ERROR')
             print('%-50s %s %-8s %5.1fs tests=%s | %s %s' % (mu['name'], prop, status, res['secs'], rec.get('tests', '-'), res['first'][:140], res['tail'][-300:]), flush=True)
+        # other invocations may have written in the meantime: merge, do not clobber
+        results = json.load(open(results_path)) if os.path.exists(results_path) else {}
         results[mu['name']] = rec
         json.dump(results, open(results_path, 'w'), indent=1, sort_keys=True)
     sh(['git', '-C', d, 'checkout', '--', '.'])
